@@ -70,6 +70,20 @@ PROPS = {
             U("c08", "TestBPlusRestart", T(25, 8, 300), T(400, 16, 2400)),
         ],
     },
+    "C16": {
+        "level": "exploration",
+        "units": [
+            U("c16", "TestBackupRestore", T(5, 16, 400, shrinktime="45s"), T(30, 16, 3000, shrinktime="200s"), needs=["nodeexec"]),
+            U("c16", "TestKnownFindings", T(None, 1, 120), T(None, 1, 120), needs=["nodeexec"]),
+        ],
+    },
+    "C10": {
+        "level": "exploration",
+        "units": [
+            U("c10", "TestGatedApply", T(8, 16, 300, shrinktime="30s"), T(150, 16, 2400, shrinktime="120s"), needs=["nodeexec"]),
+            U("c10", "TestRaceStress", T(2, 4, 300, shrinktime="20s"), T(20, 8, 2400, shrinktime="60s"), needs=["nodeexec.race"]),
+        ],
+    },
     "C12": {
         "level": "exploration",
         "units": [
